@@ -96,7 +96,7 @@ def run_shard(spec, rec):
             if rng.random() < 0.3:
                 cfg.update(nox_method='bffm2', pmnvol_method=rng.choice(['meem', 'scope11']))
             emis.run_config(cfg, hdir)
-            pm = emis.gen_pm(rng)
+            pm = emis.gen_pm(rng, no_edb=rng.random() < 0.08)
             fuel, fuel_kind = emis.gen_fuel(rng)
             traj, td = emis.gen_traj(rng, pm)
             state['cfg'], state['problems'] = cfg, None
@@ -111,6 +111,11 @@ def run_shard(spec, rec):
                 if isinstance(e, RuntimeError) and 'Lifecycle CO2 data not available' in str(e) \
                         and fuel.lifecycle_CO2 is None:
                     rec.cls('outcome:refused:fuel-without-lifecycle-data')
+                    continue
+                if isinstance(e, ValueError) and emis.NO_EDB_MSG in str(e) \
+                        and pm.desc['nvpm_data'] == 'no-engine-database-entry' \
+                        and cfg['pmnvol_method'] in ('meem', 'scope11'):
+                    rec.cls('outcome:refused:no-engine-database-entry')
                     continue
                 import traceback
                 tb = traceback.extract_tb(e.__traceback__)[-1]
